@@ -92,13 +92,17 @@ const (
 
 func cliBin() string { return os.Getenv("VERIF_DESYNC_BIN") }
 
-// cliRate: one case in cliRate() is a CLI case. VERIF_C11_CLI_RATE overrides it (development
-// aid: 1 = CLI cases only).
-func cliRate() int {
+// cliDraw decides whether the next case is a CLI case: 3 in 512 in quick (about 115 of 20000), 1 in
+// 32 in thorough. VERIF_C11_CLI_RATE=n overrides it with 1 in n (development aid: 1 = CLI cases
+// only; n has to be a power of two to be exact).
+func cliDraw(g *gctx) bool {
 	if n, err := strconv.Atoi(os.Getenv("VERIF_C11_CLI_RATE")); err == nil && n >= 1 {
-		return n
+		return g.u(n, "cli") == 0
 	}
-	return hx.Pick(128, 32)
+	if hx.Thorough() {
+		return g.u(32, "cli") == 0
+	}
+	return g.u(512, "cli") < 3
 }
 
 // cliSelfBug, set only by TestSelfCLI, makes the harness side misbehave so that the sensitivity
